@@ -3,7 +3,7 @@ Vector/AVX-512 semantics live in vecops.py and register themselves into HANDLERS
 import re
 import z3
 from . import bv
-from .machine import State, Op, parse_operand, Violation, Unsupported, REGMAP, Region
+from .machine import State, Op, parse_operand, Violation, Unsupported, SymIndex, REGMAP, Region
 
 RET_SENTINEL = 0x7FFF00000000
 HANDLERS = {}
@@ -84,7 +84,10 @@ class Exec:
                     self.insn_addrs.add(insn.addr)
                     nxt = insn.addr + insn.size
                     st.pc = nxt
-                    r = h(self, st, insn, self.ops(insn))
+                    try:
+                        r = h(self, st, insn, self.ops(insn))
+                    except bv.NonLinear as e:
+                        raise bv.NonLinear("%s at %r" % (e, insn))
                     if r is not None:
                         # conditional branch on symbolic condition: r = (cond, target)
                         cond, target = r
@@ -121,8 +124,51 @@ def rd(ex, st, o, insn, width=None):
         return o.imm & bv.mask(w)
     if o.kind == "m":
         n = o.size or (width // 8)
-        return bv.join_bytes(st.mem.load(st.ea(o, insn), n, insn))
+        try:
+            return bv.join_bytes(st.mem.load(st.ea(o, insn), n, insn))
+        except SymIndex as e:
+            if bv.is_aff(e.idx):
+                return linear_table_load(st, e, n, insn)
+            raise
     raise Unsupported("rd kind %s" % o.kind)
+
+
+def linear_table_load(st, e, n, insn):
+    """Load T[idx] from a constant table with a GF(2)-affine index: legal in the affine domain iff the table
+    itself is affine in the index bits, which is checked exhaustively over the concrete table bytes:
+        T[c | x] == T[c] ^ XOR_k (x_k ? D_k : 0)   for every x over the symbolic index bits."""
+    bits = e.idx.bits
+    symk = [k for k, b in enumerate(bits) if b not in (0, 1)]
+    if len(symk) > 12:
+        raise Unsupported("table lookup with %d symbolic index bits in %r" % (len(symk), insn))
+    c = sum((b & 1) << k for k, b in enumerate(bits) if b in (0, 1))
+
+    def T(i):
+        a = (e.const + i * e.scale) & bv.mask(64)
+        return bv.join_bytes(st.mem.load(a, n, insn))
+    t0 = T(c)
+    if not bv.is_c(t0):
+        raise Unsupported("symbolic-index lookup into a non-constant table in %r" % (insn,))
+    D = []
+    for k in symk:
+        tk = T(c | (1 << k))
+        if not bv.is_c(tk):
+            raise Unsupported("symbolic-index lookup into a non-constant table")
+        D.append(tk ^ t0)
+    for x in range(1 << len(symk)):
+        i, want = c, t0
+        for j, k in enumerate(symk):
+            if (x >> j) & 1:
+                i |= 1 << k
+                want ^= D[j]
+        if T(i) != want:
+            raise bv.NonLinear("table indexed by a symbolic value is not GF(2)-affine (entry %d) in %r" % (i, insn))
+    out = [(t0 >> b) & 1 for b in range(8 * n)]
+    for j, k in enumerate(symk):
+        for b in range(8 * n):
+            if (D[j] >> b) & 1:
+                out[b] ^= bits[k]
+    return bv.norm_aff(bv.Aff(out))
 
 
 def wr(ex, st, o, val, insn, width=None):
@@ -152,6 +198,9 @@ def parity8(v):
 
 
 def set_zsp(st, w, res):
+    if bv.is_aff(res):
+        st.fl.zf = st.fl.sf = st.fl.pf = None   # undefined in the affine domain: any later use aborts the query
+        return
     if bv.is_c(res):
         st.fl.zf = res == 0
         st.fl.sf = bool(res >> (w - 1))
@@ -502,15 +551,16 @@ def _shift(name):
         n &= 63 if w == 64 else 31
         if n == 0:
             return None
+        aff = bv.is_aff(a)
         if name in ("shl", "sal"):
             res = bv.shl(w, a, n)
-            cfv = bv.bit(a, w - n) if n <= w else False
+            cfv = None if aff else (bv.bit(a, w - n) if n <= w else False)
         elif name == "shr":
             res = bv.lshr(w, a, n)
-            cfv = bv.bit(a, n - 1) if n <= w else False
+            cfv = None if aff else (bv.bit(a, n - 1) if n <= w else False)
         else:
             res = bv.ashr(w, a, n)
-            cfv = bv.bit(a, min(n - 1, w - 1))
+            cfv = None if aff else bv.bit(a, min(n - 1, w - 1))
         if bv.is_aff(res) or bv.is_aff(a):
             st.fl.zf = st.fl.sf = st.fl.cf = st.fl.of = st.fl.pf = None
         else:
@@ -613,6 +663,17 @@ def h_div(ex, st, insn, ops):
     d = rd(ex, st, ops[0], insn, w)
     lo = bv.extract(st.r["rax"], w - 1, 0)
     hi = bv.extract(st.r["rdx"], w - 1, 0)
+    if bv.is_c(d) and d != 0 and bv.is_c(hi) and hi == 0 and not bv.is_c(lo) and not bv.is_aff(lo):
+        # symbolic dividend, constant divisor, zero high half: quotient cannot overflow
+        dz = z3.BitVecVal(d, w)
+        hook = getattr(ex, "div_hook", None)
+        if hook is not None:
+            q, r = hook(w, lo, d)   # (quotient, remainder) terms supplied by the harness (e.g. an abstraction)
+        else:
+            q, r = z3.UDiv(lo, dz), z3.URem(lo, dz)
+        st.r["rax"], st.r["rdx"] = bv.zext(w, 64, q), bv.zext(w, 64, r)
+        st.fl.zf = st.fl.sf = st.fl.cf = st.fl.of = st.fl.pf = None
+        return None
     if not (bv.is_c(d) and bv.is_c(lo) and bv.is_c(hi)):
         raise Unsupported("symbolic div")
     if d == 0:
